@@ -582,10 +582,45 @@ def fitterFit (S : Schema) (doc : Node) (rf rt : RPos) (sl : Slice) (fuel : Nat)
   | none => pure none
   | some c => fitEmit rf rt moveInline placedSize c.1 c.2
 
-/-- the fuel `replaceStep` gives the `fit` loop: every iteration places, opens or drops something of
-    the slice, or opens wrapper nodes (bounded by the number of node types) -/
-def fitFuel (S : Schema) (sl : Slice) : Nat :=
-  (fsize sl.content + sl.openStart + 4) * (S.nodes.size + 4)
+/-! ### the fuel of the `fit` loop (proved sufficient in Proofs/FitTerm.lean) -/
+
+mutual
+/-- number of nodes of a tree -/
+def Node.ncount : Node → Nat
+  | .elem _ _ _ kids => 1 + fcount kids
+  | _ => 1
+def fcount : List Node → Nat
+  | [] => 0
+  | n :: ns => n.ncount + fcount ns
+end
+
+mutual
+/-- height of a tree (a node without children has height 1) -/
+def Node.height : Node → Nat
+  | .elem _ _ _ kids => 1 + fheight kids
+  | _ => 1
+def fheight : List Node → Nat
+  | [] => 0
+  | n :: ns => max n.height (fheight ns)
+end
+
+/-- how far `open_more` can ever raise `open_start`: the height of the content (or the present
+    `open_start`, should it be larger) -/
+def Slice.openBound (u : Slice) : Nat := max (fheight u.content) u.openStart
+
+/-- the termination measure of the loop `while self.unplaced.size`, lexicographic in
+    (number of unplaced nodes, how often `open_more` can still succeed, `c`) flattened into one
+    number; `c ≤ open_start + 1` counts the wrapper-opening rounds that place nothing
+    (Proofs/FitTerm.lean: `cpot`) -/
+def fitMeasure (u : Slice) (c : Nat) : Nat :=
+  fcount u.content * ((u.openBound + 1) * (u.openBound + 2)) + (u.openBound - u.openStart) * (u.openBound + 2) + c
+
+/-- the fuel `replaceStep` gives the `fit` loop: every iteration places or drops a node of the slice,
+    or opens it one level deeper, or opens wrapper nodes without placing anything (at most
+    `open_start + 1` times in a row).  `fitLoop_terminates`: this is enough unless the loop reaches
+    the one state it maps to itself (empty content, `open_end > 0`). -/
+def fitFuel (_S : Schema) (sl : Slice) : Nat :=
+  fitMeasure sl (sl.openStart + 1) + 1
 
 /-- `replace_step(doc, from, to, slice)`; `.ok none` = returns `None` -/
 def replaceStep (S : Schema) (doc : Node) (f t : Nat) (sl : Slice) : FM (Option Step) :=
@@ -598,6 +633,99 @@ def replaceStep (S : Schema) (doc : Node) (f t : Nat) (sl : Slice) : FM (Option 
       | some true => pure (some (.replace f t sl false))
       | some false => fitterFit S doc rf rt sl (fitFuel S sl)
     | _, _ => throw .raises
+
+/-! ### the guard of the termination theorem (Proofs/FitLoop.lean, Props/C11.lean `fitLoop_terminates`) -/
+
+/-- the top-level content ends in a non-leaf node -/
+def endsInElem : List Node → Bool
+  | [] => false
+  | [n] => !n.isLeaf
+  | _ :: n :: ns => endsInElem (n :: ns)
+
+/-- **the guard of `fitLoop_terminates`** — the slice's top-level content ends in a non-leaf node
+    (whatever its open depths), or it consists of leaf and text nodes only and is closed on both
+    sides.  The slices it excludes are those with a non-leaf node in front of a final leaf or text
+    node at the top level: `open_more` then sets `open_end ≥ 1` although the last node cannot be
+    opened, and once everything has been dropped `size = -open_end` keeps the loop going
+    (the example in Props/C11.lean; with the bundled schemas only block leaves such as a
+    horizontal rule can follow a non-leaf node, and the run ends with `size = 0`). -/
+def Slice.termGuard (u : Slice) : Bool :=
+  endsInElem u.content || (u.content.all Node.isLeaf && u.openStart == 0 && u.openEnd == 0)
+
+/-! ### the guard that excludes the finding `C11-fitter-partial-node` -/
+
+/-- walks the slice's *end* spine (`b` = remaining `open_end`, `a` = remaining `open_start`,
+    `onStart` = still on the start spine as well): is there a non-leaf node `N` on it whose children
+    are not a matchable beginning of `N`'s content expression — as they stand, or (when `N` is on the
+    start spine too, `a > 1`, at least two children) with the start-open first child taken apart?
+    `Fitter.place_nodes` computes the frontier entry of the re-opened `N` with
+    `N.content_match_at(N.child_count)`, which raises `ValueError` on such a node.  The same walk as
+    harness/findings.py `partial_node_class` (compared exactly by the tie). -/
+def partialNodeOn (S : Schema) : Nat → List Node → Nat → Bool → Bool
+  | 0, _, _, _ => false
+  | b + 1, frag, a, onStart =>
+    match frag.getLast? with
+    | none => false
+    | some node =>
+      if node.isLeaf then false
+      else
+        let onStart' := onStart && decide (a > 0) && frag.length == 1
+        let kids := node.kids
+        let d := S.dfa (S.tyOf node)
+        let bad (ks : List Node) : Bool := (d.run 0 (S.types ks)).isNone
+        if bad kids || (onStart' && decide (a > 1) && decide (kids.length ≥ 2) && bad kids.tail) then true
+        else partialNodeOn S b kids (a - 1) onStart'
+
+/-- no partial node on the end spine (decidable guard of the totality statements) -/
+def Slice.noPartialNode (S : Schema) (sl : Slice) : Bool :=
+  !partialNodeOn S sl.openEnd sl.content sl.openStart true
+
+/-! ### decidable hypotheses of the deletion-totality theorem (Props/C11.lean `delete_total`) -/
+
+/-- every generatable type that labels an edge of a content automaton — every type `fill_before` can
+    choose — can be created and filled (`create_and_fill()` returns a node: default attributes, a
+    filling to a valid end, recursively) -/
+def Schema.fillersOKB (S : Schema) : Bool :=
+  (List.range S.nodes.size).all (fun w => (List.range (S.dfa w).size).all (fun q =>
+    ((S.dfa w).edgesOf q).all (fun e =>
+      !S.generatable e.1 || (createAndFill S (S.nodes.size + 1) e.1).isSome)))
+
+mutual
+/-- element nodes have a non-text, non-leaf type and carry attributes `type.create` accepts (what
+    every node built through the schema satisfies; `Node.check` does not look at it) -/
+def Schema.nodeAttrsOK (S : Schema) : Node → Bool
+  | .elem t a _ kids =>
+    !(S.nodeType t).isText && !(S.nodeType t).isLeaf &&
+    (match computeAttrs (S.nodeType t).attrs a with
+     | .ok _ => true
+     | .error _ => false) && S.kidsAttrsOK kids
+  | _ => true
+def Schema.kidsAttrsOK (S : Schema) : List Node → Bool
+  | [] => true
+  | n :: ns => S.nodeAttrsOK n && S.kidsAttrsOK ns
+end
+
+/-! ### decidable hypotheses of the inline-insertion totality theorem (Props/C11.lean `insertInline_total`) -/
+
+/-- wrapper types are not the text type; and when pass 2 of `find_fittable` answers with a
+    non-empty wrapping `w0 :: …` for a type `x` at state `q`, then `x` does not match at the state
+    reached by `w0` either — `place_nodes` reads `frontier[frontier_depth]` *after* opening the
+    wrappers, and were `x` to match there it would be placed next to the wrapper instead of inside it,
+    leaving `placed` and the frontier out of step (also upstream) -/
+def Schema.wrapOKB (S : Schema) : Bool :=
+  (List.range S.nodes.size).all (fun w => (!S.wrappable w || !(S.nodeType w).isText) &&
+    (List.range (S.dfa w).size).all (fun q => (List.range S.nodes.size).all (fun x =>
+      match findWrappingTypes S (S.dfa w) q x with
+      | some (w0 :: _) =>
+        (match (S.dfa w).matchType q w0 with
+         | some q' => ((S.dfa w).matchType q' x).isNone
+         | none => true)
+      | _ => true)))
+
+/-- the slice is closed and its content consists of leaf / text nodes of types of the schema
+    (typed text, hard breaks, images, …) -/
+def Slice.inlineLeaves (S : Schema) (sl : Slice) : Bool :=
+  sl.openStart == 0 && sl.openEnd == 0 && sl.content.all (fun n => n.isLeaf && decide (S.tyOf n < S.nodes.size))
 
 /-- `Transform.delete_range(f, t)`: the step it records (via `self.delete(f', t')` =
     `self.replace(f', t', Slice.empty)` = `replace_step`); `.ok none` = no step -/
